@@ -234,7 +234,10 @@ def direct_oracle(line, out):
         if cmd == "R":
             a, b, c, d = [int(x) for x in t[1:5]]
             if c < 0 or d < 0:
-                return None               # covered at VM level (slice_slice / slice_range:negative-inner-bound)
+                if int(o[3]) != 1:
+                    return ("slice_range:negative-inner-bound", "vm_get_slice_range([%d..%d][%d..%d]) does not report "
+                            "oob for a negative inner bound (res %s..%s)" % (a, b, c, d, o[1], o[2]), "oob")
+                return None
             sums = [a + c, a + d, a - c, a - d]
             if any(s < INT_MIN or s > INT_MAX for s in sums):
                 return None               # covered at VM level (range_deref:int-overflow)
@@ -581,7 +584,7 @@ def gen_programs(ctx):
                    "print(probe(%s))" % nev_int(i), [str(ord(word[i]))] if ok else [E_OOB],
                    "HT %s | %d" % (chars, i), str_map))
     progs.append(p)
-    # negative indices: one program each (the pinned tree reads str[i]; ASan aborts the process)
+    # negative indices: one program each (before fix a6ffef6 str[i] was read and ASan aborted the process)
     for i in (-1, -2, -7, INT_MIN):
         p = Program("str_index_neg_%s" % str(i).replace("-", "m"), sdecl)
         p.add(Call("string_deref", "negative-index", "\"%s\"[%d]" % (word, i), "print(probe(%s))" % nev_int(i),
@@ -916,33 +919,12 @@ def run_probes(ctx, nevrun):
         ctx.sample({"probe": c.descr, "call": c.expr, "expected": show_obs(c.expect), "model": mans.get(c.model_cmd)})
 
 
-def build_index_engine():
-    """what bin/build-ocaml does, for the `index` engine only (fallback, see run())"""
-    d = os.path.join(common.BUILD, "ocaml", "index")
-    ex = os.path.join(common.COQ, "Extract", "ExtractIndex.v")
-    drv = os.path.join(common.VERIF, "harness", "ocaml", "index")
-    cmd = ("set -e; mkdir -p %(d)s; cd %(d)s; rm -f *.ml *.mli *.cm* *.o .stamp; "
-           "coqc -Q %(coq)s NV %(ex)s -o %(d)s/ExtractIndex.vo >/dev/null; rm -f ExtractIndex.vo ExtractIndex.glob .*.aux; "
-           "cp %(drv)s/*.ml .; files=\"$(ocamlfind ocamldep -sort *.mli *.ml)\"; "
-           "ocamlfind ocamlopt -O3 -w -a -package unix,str -linkpkg $files -o run 2>build.log || "
-           "ocamlfind ocamlopt -w -a -package unix,str -linkpkg $files -o run 2>build.log || { cat build.log >&2; exit 1; }"
-           % {"d": d, "coq": common.COQ, "ex": ex, "drv": drv})
-    with common.Lock("ocaml"):
-        rc, so, se = common.sh(["bash", "-c", cmd], timeout=600)
-    return rc == 0, so + se
-
-
 def run(ctx):
     t0 = time.time()
     ctx.proofs()
     t1 = time.time()
     lib = common.repobuild("asan")
-    ok, log = common.ocaml_build()
-    if not ok and not re.search(r"indexrun|indexmodel|ExtractIndex|Index/|ExcTab", log):
-        # bin/build-ocaml stops at the first engine that fails; another engine's driver being
-        # broken must not decide C12: build this engine alone, the same way
-        ctx.notes["ocaml_build_other_engine_failed"] = log[-300:]
-        ok, log = build_index_engine()
+    ok, log = common.ocaml_build("index")
     if not ok or not os.path.exists(RUN):
         ctx.correspondence_broken("extraction-build", log[-3000:])
         return
